@@ -160,6 +160,30 @@ def make_cond_case(g, t):
     return c
 
 
+def only_numeric_type_differences(a, b):
+    """the two encoded terms are the same except at numbers that are numerically equal but of different type
+    (1 / True / 1.0): the characteristic of finding D16"""
+    found = [False]
+
+    def num(j):
+        return isinstance(j, list) and len(j) == 2 and j[0] in ("b", "i", "f")
+
+    def rec(u, v):
+        if num(u) and num(v):
+            if u == v:
+                return True
+            try:
+                same = enc.dec_val(u) == enc.dec_val(v)
+            except Exception:  # noqa: BLE001
+                return False
+            found[0] = found[0] or same
+            return same
+        if isinstance(u, list) and isinstance(v, list):
+            return len(u) == len(v) and all(rec(p, q) for p, q in zip(u, v))
+        return u == v
+    return rec(a, b) and found[0]
+
+
 def check_pair(c, x, y, x2, encf, op, behave, probes):
     exy, eyx, exx, exx2 = eq_obs(x, y), eq_obs(y, x), eq_obs(x, x), eq_obs(x, x2)
     if exx != ["ok", True]:
@@ -179,6 +203,11 @@ def check_pair(c, x, y, x2, encf, op, behave, probes):
             if a != b:
                 c.fail("equal_implies_same_behaviour", f"x == y but they behave differently: {a!r:.200} vs {b!r:.200}")
                 c.tags = getattr(c, "tags", set()) | {"eq_behaviour"}
+                try:
+                    if only_numeric_type_differences(encf(x), encf(y)):
+                        c.tags.add("numeric_arg_type")
+                except enc.Unencodable:
+                    pass
                 break
 
 
@@ -332,6 +361,19 @@ def generate(rng, n, tier):
                lambda o, d: filter_obs(o, d), PROBES)
     c.tags = getattr(c, "tags", set()) | {"numeric_arg_type"}
     cases.append(c)
+    # equality across different shapes, both orders (a keyword / a positional argument more on one side)
+    for tx, ty in [(("leaf", "Value", "items_contain", [], {"a": 1}), ("leaf", "Value", "items_contain", [], {"a": 1, "b": 2})),
+                   (("leaf", "Value", "items_contain", [], {"a": 1, "b": 2}), ("leaf", "Value", "items_contain", [], {"a": 1})),
+                   (("leaf", "Value", "items_contain", [], {}), ("leaf", "Value", "items_contain", [], {"a": 1})),
+                   (("leaf", "Value", "is_instance", [int], {}), ("leaf", "Value", "is_instance", [int, str], {})),
+                   (("leaf", "Value", "keys_contain_any_of", ["a", "b"], {}), ("leaf", "Value", "keys_contain_any_of", ["a"], {}))]:
+        c = Case("eq_cond", {"x": terms.tree_desc(tx), "y": terms.tree_desc(ty), "mutation": "shape"})
+        c.py = ("from valida.conditions import *\nimport pathlib\n"
+                f"x = {terms.tree_py(tx)}\ny = {terms.tree_py(ty)}\nprint(x == y, y == x)")
+        check_pair(c, terms.build_tree(tx), terms.build_tree(ty), terms.build_tree(tx), lambda o: enc.enc_cond(o), "eq_cond",
+                   lambda o, d: filter_obs(o, d), PROBES)
+        c.features.add(("cond", "shape"))
+        cases.append(c)
     while len(cases) < n:
         x = rng.random()
         if x < 0.04:
